@@ -260,7 +260,9 @@ def gen_history(cfg, ref, rng):
         else:
             at = rng.randrange(0, ops_total) if s == 0 else rng.randrange(0, ops_per_save + 2)
             faults.append({'kind': 'oserror', 'at_op': at, 'errno': rng.choice([28, 5])})
-    return {'cfg': cfg, 'faults': faults, 'clock_seed': rng.getrandbits(32)}
+    # how the user resumes after the s-th crash: by file name (usual) or by loading the file himself
+    apis = [('checkpoint_results' if rng.random() < 0.25 else 'filename') for _ in range(n_faults + 1)]
+    return {'cfg': cfg, 'faults': faults, 'clock_seed': rng.getrandbits(32), 'resume_api': apis}
 
 
 def tolerance_class(cfg):
@@ -383,7 +385,7 @@ def run_history(plan, ref_results, pre_bytes, stats):
     seg = 0
     trace = []
     final = None
-    resume_info = {'resumed_from': None, 'both_files_at_resume': None}
+    resume_info = {'resumed_from': None, 'both_files_at_resume': None, 'resume_api': None}
     max_segments = len(faults) + 2
     while True:
         fault = faults[seg] if seg < len(faults) else None
@@ -463,7 +465,13 @@ def run_history(plan, ref_results, pre_bytes, stats):
         if data['finished_run']:
             final = data
             break
-        start = ('resume', fname)
+        api = 'filename'
+        apis = plan.get('resume_api') or []
+        if seg < len(apis):
+            api = apis[seg]
+        start = ('resume', fname, api)
+        resume_info['resume_api'] = api
+        stats['probes']['resumed_via_' + api] += 1
         stats['segments_resumed'] += 1
         seg += 1
     if final is None:
